@@ -31,6 +31,30 @@ import (
 
 func init() {
 	workloads["C16"] = runC16
+	witnesses["B45"] = func() (bool, string) {
+		// a ConcurrentRead node whose located value is malformed at its first level: the failing lazy
+		// parse must release the node's mutex (readers used to hang on it)
+		doc := `{"k":{"a":[` + strings.Repeat(`1,`, 20000) + `1] "b":1}}`
+		for round := 0; round < 40; round++ {
+			n, err := sonic.GetWithOptions([]byte(doc), ast.SearchOptions{ConcurrentRead: true}, "k")
+			if err != nil {
+				return false, "the lenient search no longer locates the malformed value: " + err.Error()
+			}
+			var wg sync.WaitGroup
+			done := make(chan struct{})
+			for g := 0; g < 4; g++ {
+				wg.Add(1)
+				go func() { defer wg.Done(); _ = n.Get("b"); _, _ = n.Raw(); _, _ = n.MarshalJSON() }()
+			}
+			go func() { wg.Wait(); close(done) }()
+			select {
+			case <-done:
+			case <-time.After(20 * time.Second):
+				return true, fmt.Sprintf("round %d: 4 concurrent readers of a malformed ConcurrentRead node did not return within 20 s", round)
+			}
+		}
+		return false, "40 rounds of 4 concurrent readers over a malformed ConcurrentRead node all returned"
+	}
 }
 
 type c16Op struct {
